@@ -82,8 +82,25 @@ def build(case: dict[str, Any], d: Path, job: dict[str, Any]) -> Any:
     db = None
     if c["db"]:
         if c["point"] == "DbOpen" and c["how"] == "DbFails":
-            (d / "blocker").write_text("a regular file where the database directory should be\n")
-            db = d / "blocker" / "db.sqlite"
+            flavour = case.get("dbfail", "blocked")
+            if flavour == "not-sqlite":
+                # the file can be opened, the first statement fails (the sqlite connection object exists)
+                (d / "db").mkdir(parents=True, exist_ok=True)
+                db = d / "db" / "db.sqlite"
+                db.write_bytes(b"this is not a sqlite database\n" * 40)
+            elif flavour == "other-version":
+                # a database written by another schema version: connect() fails in check_version()
+                import sqlite3
+                (d / "db").mkdir(parents=True, exist_ok=True)
+                db = d / "db" / "db.sqlite"
+                con = sqlite3.connect(db)
+                con.execute("CREATE TABLE version (schema text unique, version text)")
+                con.execute("INSERT INTO version VALUES('main', '1.0')")
+                con.commit()
+                con.close()
+            else:
+                (d / "blocker").write_text("a regular file where the database directory should be\n")
+                db = d / "blocker" / "db.sqlite"
         else:
             db = d / "db" / "db.sqlite"
     inj: dict[str, Any] = {}
